@@ -633,10 +633,84 @@ pub fn compose(depth: usize) -> Vec<Rel> {
             }
         }
     }
+    if depth >= 3 {
+        all.extend(shared_cte_terms(false));
+    } else if depth >= 2 {
+        all.extend(shared_cte_terms(true));
+    }
     // de-duplicate by SQL text (the same text can be reached by two terms)
     let mut seen = std::collections::BTreeSet::new();
     all.retain(|r| seen.insert(r.sql.clone()));
     all
+}
+
+/// Terms in which ONE sub-query is read twice (a DAG, not a tree): `WITH c0 AS (r), c1 AS (U(c0)) SELECT .. FROM c1
+/// JOIN c0 ..`, the mirror image, and `SELECT .. FROM c1 UNION SELECT .. FROM c0`. `small`: the quick subset.
+pub fn shared_cte_terms(small: bool) -> Vec<Rel> {
+    let l1u = level1_unary(false);
+    let fams: &[&str] = if small { &["P2(", "P7(", "A3("] } else { &["P2(", "P7(", "A3(", "A4(", "D1(", "D2(", "P11(", "O1("] };
+    let reps: Vec<&Rel> = l1u.iter().filter(|r| starts_with_any(&r.term, fams) && (r.term.ends_with("(users)") || r.term.ends_with("(orders)"))).collect();
+    let pseudo = |name: &'static str, cols: &[Col], tables: &[&'static str], term: String| Rel {
+        term,
+        sql: String::new(),
+        table: Some(name),
+        cols: cols.to_vec(),
+        tables: tables.to_vec(),
+        depth: 0,
+        subqueries: vec![],
+        total_order: true,
+        limit: false,
+        tags: vec![],
+    };
+    let ufams: &[&str] = if small { &["P7(", "A3("] } else { &["P7(", "A3(", "A4(", "P2(", "D1(", "A1(", "O1("] };
+    let mut out = vec![];
+    for r in reps {
+        let p0 = pseudo("c0", &r.cols, &r.tables, format!("c0:{}", r.term));
+        for u in unary(&p0, Form::Derived, false).into_iter().filter(|u| starts_with_any(&u.term, ufams)) {
+            let p1 = pseudo("c1", &u.cols, &r.tables, format!("c1:{}", u.term));
+            let with = format!("WITH c0 AS ({}), c1 AS ({}) ", r.sql, u.sql);
+            let mut bodies: Vec<Rel> = vec![];
+            for b in binary(&p1, &p0, false).into_iter().chain(binary(&p0, &p1, false)) {
+                let keep: &[&str] = if small { &["J.inner.eq.s1(", "J.left.eq.s2("] } else { &["J.inner.eq.s1(", "J.inner.eq.s2(", "J.left.eq.s1(", "J.left.eq.s2(", "J.full.eq.s1(", "J.cross.eq.s1(", "J.inner.eq.s3(", "J.inner.eq.s4("] };
+                if starts_with_any(&b.term, keep) {
+                    bodies.push(b);
+                }
+            }
+            if u.cols.len() == r.cols.len() && u.cols.iter().zip(r.cols.iter()).all(|(x, y)| x.name == y.name && x.kind == y.kind) {
+                let names = r.cols.iter().map(|c| c.name.clone()).collect::<Vec<_>>().join(", ");
+                for (op, tag) in [("UNION", "union"), ("UNION ALL", "unionall"), ("EXCEPT", "except")] {
+                    if small && tag != "union" {
+                        continue;
+                    }
+                    let mut b = p1.clone();
+                    b.term = format!("S.{tag}(c1:{}, c0:{})", u.term, r.term);
+                    b.sql = format!("SELECT {names} FROM c1 {op} SELECT {names} FROM c0");
+                    b.tags = vec!["setop", tag];
+                    bodies.push(b.clone());
+                    b.term = format!("S.{tag}(c0:{}, c1:{})", r.term, u.term);
+                    b.sql = format!("SELECT {names} FROM c0 {op} SELECT {names} FROM c1");
+                    bodies.push(b);
+                }
+            }
+            for b in bodies {
+                let mut tags = b.tags.clone();
+                tags.push("shared-cte");
+                out.push(Rel {
+                    term: format!("W[{}]", b.term),
+                    sql: format!("{with}{}", b.sql),
+                    table: None,
+                    cols: b.cols.clone(),
+                    tables: r.tables.clone(),
+                    depth: 3,
+                    subqueries: vec![r.sql.clone()],
+                    total_order: true,
+                    limit: false,
+                    tags,
+                });
+            }
+        }
+    }
+    out
 }
 
 pub fn to_gen(r: &Rel) -> GenQuery {
